@@ -9,6 +9,8 @@ Only property theorems and non-vacuity examples live here.
 import SfntV.Proofs.SubsetMain
 import SfntV.Proofs.SubsetGsub
 import SfntV.Proofs.SubsetCff
+import SfntV.Proofs.SubsetOrder
+import SfntV.Proofs.SubsetWritable
 
 namespace SfntV.Props.C10
 open SfntV SfntV.Subset
@@ -218,27 +220,283 @@ def C10_closure_rules_full : Prop :=
     glyphs.Nodup → (∀ x, (o.rules x).Perm x) → subset f glyphs o = .ok sub → f.gsub = some l →
     ∀ r ∈ rulesOf l, (∀ g ∈ r.ins, g ∈ sub.order) → ∀ g ∈ r.outs, g ∈ sub.order
 
-/-- Proved part: the glyph list `T` reached when step 2 of `SubsetGsub` ends — requested glyphs
-first, a prefix of the final glyph list — is closed under every GSUB rule (1.1 substitutions and 4.1
-ligatures): all inputs in `T` ⇒ all outputs in `T`.  Holds for every order of the rule list. -/
+/-- Proved part: the glyph list when `SubsetGsub` returns (`sub.textGlyphs`: requested glyphs first,
+a prefix of the final list) is closed under every GSUB rule (1.1 substitutions and 4.1 ligatures):
+all inputs in it ⇒ all outputs in it.  Holds for every order of the rule list. -/
 theorem C10_closure_rules_partial {f : Font} {glyphs : List Gid} {o : Order} {sub : Sub}
     {l : Layout GsubSub} (hnd : glyphs.Nodup) (hp : ∀ x, (o.rules x).Perm x)
     (h : subset f glyphs o = .ok sub) (hl : f.gsub = some l) :
-    ∃ T : List Gid, (∃ e, T = glyphs ++ e) ∧ (∃ e, sub.textGlyphs = T ++ e) ∧
-      (∃ e, sub.order = sub.textGlyphs ++ e) ∧
-      ∀ r ∈ rulesOf l, (∀ g ∈ r.ins, g ∈ T) → ∀ g ∈ r.outs, g ∈ T := by
+    (∃ e, sub.textGlyphs = glyphs ++ e) ∧ (∃ e, sub.order = sub.textGlyphs ++ e) ∧
+      ∀ r ∈ rulesOf l, (∀ g ∈ r.ins, g ∈ sub.textGlyphs) → ∀ g ∈ r.outs, g ∈ sub.textGlyphs := by
   obtain ⟨s1, s2, r⟩ := subset_ok hnd h
   have he := r.eq
   have ho : sub.order = s2.glyphs := by rw [he]; rfl
   have ht : sub.textGlyphs = s1.glyphs := by rw [he]; rfl
-  rcases r.gsubRun with ⟨h1, _, _⟩ | ⟨l0, lay, h1, h2, _⟩
+  have hg := run_gsub hnd hp r
+  have hr : fontRules f = rulesOf l := by unfold fontRules; rw [hl]
+  rw [hr] at hg
+  refine ⟨by rw [ht]; exact r.ext1, by rw [ho, ht]; exact r.ext2, ?_⟩
+  intro ru hru hins g hgm
+  rw [ht] at hins ⊢
+  exact (r.inv1.has_iff g).1 (hg.1 ru hru (fun x hx => (r.inv1.has_iff x).2 (hins x hx)) g hgm)
+
+/-- Termination / no oracle needed: for every font, every glyph list and every order of the rule
+list there is a sequence of `pop` results that is a complete run of the composite-closure loop, and
+the round budget of `SubsetGsub` step 2 (`number of rules + 1`) is never exhausted — the model
+answers `.ok` or `.panic` (a glyph id out of range), never "illegal order".  (The loop ends because
+a glyph is put on `todo` only when it is appended, and it is appended at most once.) -/
+theorem C10_closure_total (f : Font) (glyphs : List Gid) (ro : List Rule → List Rule) :
+    ∃ pops, ∀ e, subset f glyphs ⟨ro, pops⟩ ≠ .err e :=
+  subset_total f glyphs ro
+
+/-- Order independence.  For two runs with arbitrary orders (rule permutations, `pop` sequences):
+the SET of retained glyphs is the same — exactly the glyphs reachable from the requested ones through
+GSUB rules and then composite components — and so is the set of text glyphs; the glyph lists are
+permutations of each other and both start with the requested glyphs; an old glyph retained at
+position `j1` in one and `j2` in the other has the same payload, width and name, component
+references that denote the same old glyphs, the same CID and the same private dictionary and font
+matrix.  What MAY differ: the positions of the appended extras — hence the numeric values of
+component references, cmap targets, encoding entries, glyph ids in GSUB/GPOS rules — and the order
+(numbering) of the private dictionaries; all of these only through the renumbering. -/
+theorem C10_any_order {f : Font} {glyphs : List Gid} {o1 o2 : Order} {sub1 sub2 : Sub}
+    (hnd : glyphs.Nodup) (hp1 : ∀ x, (o1.rules x).Perm x) (hp2 : ∀ x, (o2.rules x).Perm x)
+    (h1 : subset f glyphs o1 = .ok sub1) (h2 : subset f glyphs o2 = .ok sub2) :
+    (∀ g, g ∈ sub1.order ↔ Reach f glyphs (fontRules f) g) ∧
+    (∀ g, g ∈ sub1.textGlyphs ↔ TextReach glyphs (fontRules f) g) ∧
+    sub1.order.Perm sub2.order ∧ sub1.textGlyphs.Perm sub2.textGlyphs ∧
+    (∃ e1 e2, sub1.order = glyphs ++ e1 ∧ sub2.order = glyphs ++ e2 ∧ e1.Perm e2) ∧
+    ∀ (j1 j2 : Nat) (old : Gid), sub1.order[j1]? = some old → sub2.order[j2]? = some old →
+      ∃ g1 g2, sub1.glyphs[j1]? = some g1 ∧ sub2.glyphs[j2]? = some g2 ∧
+        g1.payload = g2.payload ∧ g1.width = g2.width ∧ g1.name = g2.name ∧
+        (f.isCFF = false → ∀ k : Nat, (g1.comps[k]?).bind (sub1.order[·]?) =
+          (g2.comps[k]?).bind (sub2.order[·]?)) ∧
+        (f.isCFF = true → g1 = g2 ∧
+          (sub1.gidToCID.map (·[j1]?)) = (sub2.gidToCID.map (·[j2]?)) ∧
+          (sub1.fdSelect[j1]?).bind (sub1.privates[·]?) = (sub2.fdSelect[j2]?).bind (sub2.privates[·]?) ∧
+          (f.cidKeyed = true → (sub1.fdSelect[j1]?).bind (sub1.matrices[·]?) =
+            (sub2.fdSelect[j2]?).bind (sub2.matrices[·]?))) := by
+  obtain ⟨a1, a2, ra⟩ := subset_ok hnd h1
+  obtain ⟨b1, b2, rb⟩ := subset_ok hnd h2
+  have hoa : sub1.order = a2.glyphs := by rw [ra.eq]; rfl
+  have hob : sub2.order = b2.glyphs := by rw [rb.eq]; rfl
+  have hta : sub1.textGlyphs = a1.glyphs := by rw [ra.eq]; rfl
+  have htb : sub2.textGlyphs = b1.glyphs := by rw [rb.eq]; rfl
+  have sa := run_order hnd hp1 ra
+  have sb := run_order hnd hp2 rb
+  have ta := (run_gsub hnd hp1 ra).2
+  have tb := (run_gsub hnd hp2 rb).2
+  have hperm : sub1.order.Perm sub2.order := by
+    rw [hoa, hob]
+    exact perm_of_same_mem ra.inv2.nodup rb.inv2.nodup (fun g => (sa g).trans (sb g).symm)
+  obtain ⟨e1, he1⟩ := ra.ext1.trans ra.ext2
+  obtain ⟨e2, he2⟩ := rb.ext1.trans rb.ext2
+  refine ⟨by rw [hoa]; exact sa, by rw [hta]; exact ta, hperm, ?_, ⟨e1, e2, ?_, ?_, ?_⟩, ?_⟩
+  · rw [hta, htb]
+    exact perm_of_same_mem ra.inv1.nodup rb.inv1.nodup (fun g => (ta g).trans (tb g).symm)
+  · rw [hoa, he1]; rfl
+  · rw [hob, he2]; rfl
+  · have := hperm
+    rw [hoa, hob, he1, he2] at this
+    exact (List.perm_append_left_iff _).1 this
+  · intro j1 j2 old hj1 hj2
+    obtain ⟨g1, hg1, p1, w1, n1, c1⟩ := (C10_positions hnd h1).2.2.2.2.2 j1 old hj1
+    obtain ⟨g2, hg2, p2, w2, n2, c2⟩ := (C10_positions hnd h2).2.2.2.2.2 j2 old hj2
+    refine ⟨g1, g2, hg1, hg2, by rw [p1, p2], by rw [w1, w2], by rw [n1, n2], ?_, ?_⟩
+    · intro hk k
+      obtain ⟨g1', hg1', l1, m1⟩ := C10_components hnd h1 hk j1 old hj1
+      obtain ⟨g2', hg2', l2, m2⟩ := C10_components hnd h2 hk j2 old hj2
+      rw [hg1] at hg1'; injection hg1' with hg1'; subst hg1'
+      rw [hg2] at hg2'; injection hg2' with hg2'; subst hg2'
+      cases hc : (f.glyph old).comps[k]? with
+      | some c =>
+        obtain ⟨c1', hc1, ho1⟩ := m1 k c hc
+        obtain ⟨c2', hc2, ho2⟩ := m2 k c hc
+        simp [hc1, hc2, ho1, ho2]
+      | none =>
+        have hlen : (f.glyph old).comps.length ≤ k := by
+          rcases Nat.lt_or_ge k (f.glyph old).comps.length with h | h
+          · rw [List.getElem?_eq_getElem h] at hc; cases hc
+          · exact h
+        rw [List.getElem?_eq_none (by omega), List.getElem?_eq_none (by omega)]
+        rfl
+    · intro hk
+      have e1' := c1 hk
+      have e2' := c2 hk
+      refine ⟨by rw [e1', e2'], ?_, ?_, ?_⟩
+      · have q1 := C10_cff_cid_encoding hnd h1 hk
+        have q2 := C10_cff_cid_encoding hnd h2 hk
+        cases ht : f.gidToCID with
+        | none => rw [q1.2.1 ht, q2.2.1 ht]; rfl
+        | some t =>
+          obtain ⟨t1, ht1, _, m1⟩ := q1.1 t ht
+          obtain ⟨t2, ht2, _, m2⟩ := q2.1 t ht
+          rw [ht1, ht2]
+          simp only [Option.map_some]
+          rw [m1 j1 old hj1, m2 j2 old hj2]
+      · obtain ⟨k1, f1, pr1, _⟩ := C10_cff_private hnd h1 hk j1 old hj1
+        obtain ⟨k2, f2, pr2, _⟩ := C10_cff_private hnd h2 hk j2 old hj2
+        simp [f1, f2, pr1, pr2]
+      · intro hcid
+        obtain ⟨k1, f1, _, m1⟩ := C10_cff_private hnd h1 hk j1 old hj1
+        obtain ⟨k2, f2, _, m2⟩ := C10_cff_private hnd h2 hk j2 old hj2
+        simp [f1, f2, m1 hcid, m2 hcid]
+
+/-- what it means for the rule list `rs'` of a rebuilt lookup to be the rule list `rs` of the
+original lookup "under the new numbering": `rs'` is `rs` with the rules dropped that have an input
+glyph outside the text glyphs `T`, in the same order, and every kept rule has each glyph id replaced
+by an index at which the subset holds that very glyph -/
+def RulesOK (T order : List Gid) (rs rs' : List Rule) : Prop :=
+  ∃ tr : Rule → Option Rule, rs' = rs.filterMap tr ∧
+    ∀ r ∈ rs, (tr r = none ↔ ¬ ∀ i ∈ r.ins, i ∈ T) ∧
+      ∀ r', tr r = some r' →
+        r'.ins.map (order[·]?) = r.ins.map some ∧ r'.outs.map (order[·]?) = r.outs.map some
+
+/-- GSUB rules (1.1 single substitutions, rebuilt as 1.2, and 4.1 ligatures): feature lists and
+lookup indices are unchanged, and the rule list of lookup `i` of the subset (its subtables read in
+order: `from ↦ to` pairs, `first rest… ↦ ligature`) is the rule list of lookup `i` of the original
+restricted to the rules all of whose input glyphs are text glyphs of the subset, in the original
+order, with every glyph id translated to an index holding the same glyph.  A retained rule thus
+maps new ids to new ids exactly as the original maps the corresponding old ids; a rule with a
+dropped input glyph is dropped; priorities (order) are preserved. -/
+theorem C10_layout_gsub {f : Font} {glyphs : List Gid} {o : Order} {sub : Sub}
+    {l : Layout GsubSub} (hnd : glyphs.Nodup) (hp : ∀ x, (o.rules x).Perm x)
+    (h : subset f glyphs o = .ok sub) (hl : f.gsub = some l) :
+    ∃ l', sub.gsub = some l' ∧ l'.features = l.features ∧ l'.lookups.length = l.lookups.length ∧
+      ∀ (i : Nat) (subs : List GsubSub), l.lookups[i]? = some subs →
+        ∃ subs', l'.lookups[i]? = some subs' ∧
+          RulesOK sub.textGlyphs sub.order (subs.flatMap rulesOfSub) (subs'.flatMap outRules) := by
+  obtain ⟨s1, s2, r⟩ := subset_ok hnd h
+  have he := r.eq
+  have ho : sub.order = s2.glyphs := by rw [he]; rfl
+  have ht : sub.textGlyphs = s1.glyphs := by rw [he]; rfl
+  rcases r.gsubRun with ⟨h1, _, _⟩ | ⟨l0, lay, h1, h2, h3⟩
   · rw [hl] at h1; cases h1
   · rw [hl] at h1; injection h1 with h1; subst h1
-    obtain ⟨t, hti, ht0, ht1, hf⟩ := subsetGsub_closed (init_inv hnd) hp h2
-    refine ⟨t.glyphs, ht0, by rw [ht]; exact ht1, by rw [ho, ht]; exact r.ext2, ?_⟩
-    intro ru hru hins g hg
-    have := hf ru hru (fun x hx => (hti.has_iff x).2 (hins x hx)) g hg
-    exact (hti.has_iff g).1 this
+    have hf := subsetGsub_full (init_inv hnd) hp h2
+    have hlen : lay.lookups.length = l.lookups.length := by
+      have := congrArg List.length hf.2.2.2.2.2
+      simpa using this
+    refine ⟨lay, h3, hf.2.2.2.2.1, hlen, ?_⟩
+    intro i subs hi
+    have hlt : i < lay.lookups.length := by
+      rw [hlen]
+      rcases Nat.lt_or_ge i l.lookups.length with h | h
+      · exact h
+      · rw [List.getElem?_eq_none h] at hi; cases hi
+    refine ⟨lay.lookups[i], List.getElem?_eq_getElem hlt, transRule s1, ?_, ?_⟩
+    · have := congrArg (fun x => x[i]?) hf.2.2.2.2.2
+      simp only [List.getElem?_map, hi, List.getElem?_eq_getElem hlt, Option.map_some] at this
+      injection this
+    · intro ru _
+      constructor
+      · unfold transRule
+        constructor
+        · intro hn hall
+          have : ru.ins.all s1.has = true := by
+            rw [List.all_eq_true]; intro x hx
+            exact (r.inv1.has_iff x).2 (by rw [← ht]; exact hall x hx)
+          rw [this] at hn; simp at hn
+        · intro hn
+          have : ¬ ru.ins.all s1.has = true := by
+            intro hall; apply hn
+            rw [List.all_eq_true] at hall
+            intro x hx; rw [ht]; exact (r.inv1.has_iff x).1 (hall x hx)
+          simp [this]
+      · intro r' hr'
+        unfold transRule at hr'
+        split at hr'
+        · rename_i hall
+          injection hr' with hr'; subst hr'
+          rw [List.all_eq_true] at hall
+          have key : ∀ gs : List Gid, (∀ x ∈ gs, s1.has x = true) →
+              (gs.map (look s1)).map (sub.order[·]?) = gs.map some := by
+            intro gs hgs
+            rw [List.map_map]
+            apply List.map_congr_left
+            intro x hx
+            have hm := (r.inv1.has_iff x).1 (hgs x hx)
+            obtain ⟨n, hn⟩ := List.mem_iff_getElem?.1 hm
+            have hlk := (r.inv1 x n).2 hn
+            simp only [Function.comp, look, hlk, Option.getD_some, ho]
+            exact Ext.get r.ext2 hn
+          refine ⟨key ru.ins hall, key ru.outs ?_⟩
+          intro x hx
+          have hru : ru ∈ rulesOf l := by
+            unfold rulesOf
+            exact List.mem_flatMap.2 ⟨subs, List.mem_of_getElem? hi, ‹ru ∈ subs.flatMap rulesOfSub›⟩
+          exact hf.2.2.1 ru hru hall x hx
+        · cases hr'
+
+/-! ### preconditions of the writer (`C10_writable` as far as a model reaches) -/
+
+/-- The subset is never empty and keeps the first requested glyph (`.notdef`) first; cmap keys are
+those of the original (`C10_cmap`); lookup and feature lists keep their shape
+(`C10_layout_gsub_indices`, `C10_layout_gpos`). -/
+theorem C10_writable_glyphs {f : Font} {glyphs : List Gid} {o : Order} {sub : Sub}
+    (hnd : glyphs.Nodup) (h : subset f glyphs o = .ok sub) (g0 : Gid) (rest : List Gid)
+    (hg : glyphs = g0 :: rest) :
+    1 ≤ sub.glyphs.length ∧ sub.order[0]? = some g0 := by
+  have hp := C10_positions hnd h
+  obtain ⟨e, he⟩ := hp.1
+  rw [hp.2.2.2.1, he, hg]
+  simp
+
+/-- Coverage tables of the rebuilt GSUB subtables (the class of the repaired "invalid coverage
+table" panic): `sortedByNewGid` — the order in which the repaired step 3 hands out coverage indices —
+lists exactly the retained covered glyphs, and their new glyph ids are strictly increasing, which
+is the validity condition of `coverage.Table` (index = rank of the glyph id).  `s1` is the
+subsetter state when `SubsetGsub` rebuilds the tables. -/
+theorem C10_writable_coverage {f : Font} {glyphs : List Gid} {o : Order} {sub : Sub}
+    (hnd : glyphs.Nodup) (h : subset f glyphs o = .ok sub) (cov : List Gid) (hc : cov.Nodup) :
+    ∃ s1 : St, s1.glyphs = sub.textGlyphs ∧ (∀ g, s1.has g = true ↔ g ∈ sub.textGlyphs) ∧
+      (∀ g ∈ sub.textGlyphs, sub.textGlyphs[look s1 g]? = some g) ∧
+      ((sortedByNewGid s1 cov).map (look s1)).Pairwise (· < ·) ∧
+      (sortedByNewGid s1 cov).Perm (cov.filter s1.has) := by
+  obtain ⟨s1, s2, r⟩ := subset_ok hnd h
+  have ht : sub.textGlyphs = s1.glyphs := by rw [r.eq]; rfl
+  have hs := sortedByNewGid_spec r.inv1 hc
+  refine ⟨s1, ht.symm, fun g => by rw [ht]; exact r.inv1.has_iff g, ?_, hs.1, hs.2⟩
+  intro g hg
+  rw [ht] at hg ⊢
+  obtain ⟨i, hi⟩ := List.mem_iff_getElem?.1 hg
+  have := (r.inv1 g i).2 hi
+  simp only [look, this, Option.getD_some]
+  exact hi
+
+/-- CFF built-in encoding: the writer's contiguity condition (cff/encoding.go) holds for the subset
+whenever the retained encoded glyphs come first, i.e. whenever every position between 1 and the
+position of an encoded glyph holds an encoded glyph.  (Otherwise it fails: known finding
+C10-cff-encoding-order, witness `C10_writable_encoding_witness`.) -/
+theorem C10_writable_encoding {f : Font} {glyphs : List Gid} {o : Order} {sub : Sub}
+    (hnd : glyphs.Nodup) (h : subset f glyphs o = .ok sub) (hk : f.isCFF = true)
+    (e : List Gid) (he : f.encoding = some e)
+    (hfirst : ∀ (n m : Nat) (old : Gid), 1 ≤ n → n ≤ m → sub.order[m]? = some old → old ∈ e →
+      ∃ old', sub.order[n]? = some old' ∧ old' ∈ e) :
+    ∃ e', sub.encoding = some e' ∧ encodingContiguous e' = true := by
+  have hnodup := (C10_positions hnd h).2.1
+  obtain ⟨e', he', hlen, hm⟩ := (C10_cff_cid_encoding hnd h hk).2.2.2 e he
+  refine ⟨e', he', encodingContiguous_of_downward e' ?_⟩
+  intro n m h1 h2 hmem hm0
+  -- `m` is the new index of an encoded glyph
+  obtain ⟨code, hcode⟩ := List.mem_iff_getElem?.1 hmem
+  have hclt : code < e.length := by
+    rw [← hlen]
+    rcases Nat.lt_or_ge code e'.length with h | h
+    · exact h
+    · rw [List.getElem?_eq_none h] at hcode; cases hcode
+  have hg : e[code]? = some e[code] := List.getElem?_eq_getElem hclt
+  have hold : sub.order[m]? = some e[code] := by
+    rcases hm code _ hg with ⟨n', ho, hn'⟩ | ⟨_, hz⟩
+    · rw [hcode] at hn'; injection hn' with hn'; subst hn'; exact ho
+    · rw [hcode] at hz; injection hz with hz; exact absurd hz hm0
+  obtain ⟨old', ho', hin⟩ := hfirst n m _ h1 h2 hold (List.getElem_mem hclt)
+  -- so position `n` holds an encoded glyph, and the encoding sends its code to `n`
+  obtain ⟨code', hcode'⟩ := List.mem_iff_getElem?.1 hin
+  rcases hm code' old' hcode' with ⟨n', ho, hn'⟩ | ⟨hnot, _⟩
+  · have : n' = n := nodup_getElem?_inj hnodup ho ho'
+    subst this
+    exact List.mem_of_getElem? hn'
+  · exact absurd (List.mem_of_getElem? ho') hnot
 
 /-! ### non-vacuity and the witness against the full rule closure -/
 
@@ -281,5 +539,25 @@ theorem C10_closure_rules_full_false : ¬ C10_closure_rules_full := by
   rw [ho] at this
   revert this
   decide
+
+/-- a simple CFF font whose encoding gives codes 65, 66 to glyphs 1, 2 (contiguous) -/
+def wCff : Font :=
+  { isCFF := true
+    glyphs := [⟨0, [], 500, 0⟩, ⟨1, [], 501, 1⟩, ⟨2, [], 502, 2⟩, ⟨3, [], 503, 3⟩]
+    hasNames := true, cmaps := none
+    privates := [0], matrices := [], cidKeyed := false, fdSelect := [0, 0, 0, 0]
+    encoding := some ((List.range 256).map fun c => if c = 65 then 1 else if c = 66 then 2 else 0)
+    gidToCID := none, gsub := none, gpos := none }
+
+/-- The known finding C10-cff-encoding-order in the model: the original encoding is contiguous, the
+subset `[0, 3, 2]` puts the unencoded glyph 3 before the encoded glyph 2 and its encoding violates
+the writer's condition; `[0, 2, 3]` satisfies it. -/
+theorem C10_writable_encoding_witness :
+    (wCff.encoding.map encodingContiguous = some true) ∧
+    (∃ sub, subset wCff [0, 3, 2] ⟨id, []⟩ = .ok sub ∧
+      sub.encoding.map encodingContiguous = some false) ∧
+    (∃ sub, subset wCff [0, 2, 3] ⟨id, []⟩ = .ok sub ∧
+      sub.encoding.map encodingContiguous = some true) := by
+  refine ⟨by decide, ⟨_, rfl, by decide⟩, ⟨_, rfl, by decide⟩⟩
 
 end SfntV.Props.C10
